@@ -209,13 +209,34 @@ const (
 	fTwiceEmpty     = nExactFactories             // CREATE2 twice, same salt, empty init code: the second collides
 	fTwiceDeploy    = nExactFactories + 1         // CREATE2 twice, same salt, deploying init code: the second collides
 	fOccupied       = nExactFactories + 2         // CREATE (empty init) into an address that is occupied in the genesis
-	nFactories      = nExactFactories + 3
+	fDriver0        = nExactFactories + 3         // 9 drivers: CALL a self-destructing contract k in {1,2,3} times with value 1000, beneficiary in {other EOA, the caller, the contract itself}
+	nDrivers        = 9
+	nFactories      = fDriver0 + nDrivers
 )
 
 var factoryOpNames = []string{"CREATE", "CREATE2"}
 var factoryInitNames = []string{"empty-init", "deploying-init", "burning-init", "reverting-init"}
 
+var driverBenefNames = []string{"another-EOA", "the-caller", "itself"}
+
+var addrSDCaller = fixedAddr("c09-sd-to-caller", 9) // CALLER SELFDESTRUCT
+
+// driverTarget: the self-destructing contract a driver calls.
+func driverTarget(benef int) common.Address {
+	switch benef {
+	case 0:
+		return leafAddr(aSDOther)
+	case 1:
+		return addrSDCaller
+	}
+	return leafAddr(aSDSelf)
+}
+
 func factoryName(k int) string {
+	if k >= fDriver0 {
+		d := k - fDriver0
+		return fmt.Sprintf("DRIVER(%dx CALL with value into SELFDESTRUCT-to-%s)", d/3+1, driverBenefNames[d%3])
+	}
 	switch k {
 	case fTwiceEmpty:
 		return "CREATE2-twice-same-salt(empty-init)"
@@ -245,6 +266,16 @@ func factoryInit(init int) (prelude []byte, offset, size byte) {
 }
 
 func factoryCode(k int) []byte {
+	if k >= fDriver0 {
+		d := k - fDriver0
+		var c []byte
+		for i := 0; i <= d/3; i++ {
+			c = append(c, 0x60, 0, 0x60, 0, 0x60, 0, 0x60, 0, 0x61, 0x03, 0xe8) // outSize outOff inSize inOff value=1000
+			c = append(c, push20(driverTarget(d%3))...)
+			c = append(c, 0x5a, 0xf1, 0x50) // GAS CALL POP
+		}
+		return append(c, 0x00)
+	}
 	switch k {
 	case fTwiceEmpty, fTwiceDeploy:
 		// CREATE2 POP CREATE2 (end of code): the colliding second CREATE2 leaves the frame without gas, so nothing may follow it
@@ -469,9 +500,14 @@ func buildWorld() *world {
 			Storage: map[common.Hash]common.Hash{slotOne: slotVal}}
 	}
 	for k := 0; k < nFactories; k++ {
-		g.Alloc[factoryAddr(k)] = genesis.GenesisAccount{Balance: big.NewInt(progBalance), Nonce: 1, Code: factoryCode(k)}
+		fb := int64(progBalance)
+		if k >= fDriver0 {
+			fb = 10000 // a driver hands out up to 3 x 1000
+		}
+		g.Alloc[factoryAddr(k)] = genesis.GenesisAccount{Balance: big.NewInt(fb), Nonce: 1, Code: factoryCode(k)}
 		g.Alloc[wrapperAddr(k)] = genesis.GenesisAccount{Balance: big.NewInt(progBalance), Nonce: 1, Code: wrapperCode(k)}
 	}
+	g.Alloc[addrSDCaller] = genesis.GenesisAccount{Balance: big.NewInt(509), Nonce: 1, Code: []byte{0x33, 0xff}}
 	// fixed programs used by the block path
 	g.Alloc[addrPB] = genesis.GenesisAccount{Balance: big.NewInt(progBalance), Nonce: 1, Code: progCode(blockProgB),
 		Storage: map[common.Hash]common.Hash{slotOne: slotVal}}
@@ -505,6 +541,7 @@ func buildWorld() *world {
 	name(addrX, "xfer-sink")
 	name(addrBenef, "sd-beneficiary")
 	name(addrP, "program")
+	name(addrSDCaller, "sd-to-caller")
 	name(addrPB, "program-b")
 	name(addrPC, "program-c")
 	name(common.HexToAddress(configs.DefaultStakingContractAddress), "staking-contract")
